@@ -125,11 +125,15 @@ where
     // It's still good practice.
     drop(self.shard_guard);
 
+    #[cfg(excsn_fibre_verif)]
+    crate::verif_sched::point("entry:before_event_push");
     // Record the write event for the janitor to process later.
     let _ = shard
       .event_buffer_tx
       .try_send(AccessEvent::Write(key_for_event, cost));
 
+    #[cfg(excsn_fibre_verif)]
+    crate::verif_sched::point("entry:before_cost_add");
     // Update metrics
     self
       .shared
